@@ -52,3 +52,23 @@ def c20_output_list_item_relaxed(old_w, new_w, same) -> bool:
     relaxed = old_w[: k + 1] + old_w[k + 1:].replace("!", "")
     from harness.c20 import subtype
     return subtype(new_w, relaxed, same) and not subtype(new_w, old_w, same)
+
+
+# KF C18: child slots the visitor never traverses, and kinds whose children are traversed out of source order.
+# Each is pinned by the literal event lists in tests/test_lang/test_visitor.py (adding or reordering events for
+# the kitchen-sink documents fails them), so they cannot be repaired without editing tests.
+C18_UNVISITED = {
+    ("ListType", "type"), ("NonNullType", "type"), ("VariableDefinition", "variable"),
+    ("FragmentDefinition", "type_condition"), ("InlineFragment", "type_condition"),
+}
+C18_MISORDERED = {"VariableDefinition", "SchemaDefinition", "SchemaExtension", "FieldDefinition"}
+
+
+def c18_unvisited_slot(kind, slot) -> bool:
+    if not ENABLED:
+        return False
+    return (kind, slot) in C18_UNVISITED or slot == "description"
+
+
+def c18_misordered_kind(kind) -> bool:
+    return ENABLED and kind in C18_MISORDERED
